@@ -153,8 +153,17 @@ def check(case):
     return res
 
 
+@st.composite
+def window_case(draw):
+    mode = draw(st.sampled_from([[], [], [], [], ["--noopt"], ["--nodebump"], ["--nodebump", "--noopt"], ["--clean"]]))
+    return dict(part="windows", desc=draw(e2e.window_structure()), ff=draw(st.sampled_from(strat.FFS)), opts=list(mode), wild=False)
+
+
 def parts(tier):
-    return [Part("e2e", check, strategy=case(), budget=dict(quick=640, thorough=12000))]
+    return [
+        Part("e2e", check, strategy=case(), budget=dict(quick=640, thorough=12000)),
+        Part("windows", check, strategy=window_case(), budget=dict(quick=240, thorough=5000)),
+    ]
 
 
 def selftest():
